@@ -212,7 +212,7 @@ def extract(repo):
 # ------------------------------------------------------------------ dispositions
 # (file, fn regex, kind regex, code regex) -> disposition ; first match wins
 RULES = [
-    ("src/plan.rs", r"^is_key_direct_child_of$", r"sub1|slice", r"", "model:RobustModel.child_of (Panic 1) - planner_refuted / planner_total; observed:panic:src/plan.rs:is_key_direct_child_of"),
+    ("src/plan.rs", r"^is_key_direct_child_of$", r"", r"", "model:RobustModel.child_of - planner_total (split_last: no partial operation left; the len - 1 site of DESIGN 10-f was removed by /repo 540253fb)"),
     ("src/primitives/threshold.rs", r"^fmt$", r"unwrap|debug_assert", r"", "arg:Display of ThresholdError: max.is_some() whenever k,n valid and n > MAX (validate_k_n is the only constructor); model:RobustModel.thr_err_display_total"),
     ("src/primitives/threshold.rs", r"^(or|and)$", r"debug_assert", r"", "debug-only; model:RobustModel.thr_or/thr_and (MAX = 0 or MAX > 1 is a precondition, C11.threshold_ctor_total)"),
     ("src/primitives/threshold.rs", r"^map_from_post_order_iter$", r"", r"", "model:RobustModel.thr_map_post_order (Panic 2 when an index is out of range) - thr_map_post_order_total under post-order indices"),
@@ -226,16 +226,17 @@ RULES = [
     ("src/miniscript/lex.rs", r"", r"", r"", "model:RobustModel.lex_cursor - lex_total (the byte cursor is rust-bitcoin's Instructions; lex.rs itself has no index expression)"),
     ("src/expression/mod.rs", r"^(parse_pre_check|from_str_inner|new_node)$", r"", r"", "model:ExprTreeModel (C10 builder) - tree_total; robust classes str.tree / str.*"),
     ("src/expression/mod.rs", r"^root$", r"assert", r"", "arg:from_str_inner always pushes at least the root node (tree_total, C10)"),
-    ("src/miniscript/display.rs", r"", r"unreachable", r"", "observed:panic:src/miniscript/display.rs:cmp (DESIGN 10-d) - model owned by C19 (ord_total refuted there)"),
-    ("src/policy/mod.rs", r"^lift$", r"unwrap", r"", "observed:panic:src/policy/mod.rs:lift (DESIGN 10-e: Concrete::And / Or with arity != 2) - model owned by C18"),
-    ("src/policy/compiler.rs", r"^cmp$", r"unwrap", r"", "observed:panic:src/policy/compiler.rs:cmp (NaN cost from Or with both odds 0)"),
-    ("src/descriptor/key.rs", r"^derive_public_key$", r"unreachable", r"", "observed:panic:src/descriptor/key.rs:derive_public_key (xpub with >= 256 derivation steps)"),
-    ("src/psbt/finalizer.rs", r"^get_utxo$", r"index", r"", "observed:panic:src/psbt/finalizer.rs:get_utxo (non_witness_utxo shorter than previous_output.vout; inputs vs unsigned_tx.input length is a structural invariant of Psbt)"),
-    ("src/miniscript/satisfy/mod.rs", r"^satisfy(_mall)?$", r"expect", r"", "observed:panic:src/miniscript/satisfy/mod.rs:satisfy (tap leaf with raw pkh: PubkeyHash placeholder cannot be completed)"),
+    ("src/miniscript/display.rs", r"", r"unreachable", r"", "arg:since /repo 32d9f676 cmp compares arity and k at every node, so the two pre-order walks stay aligned (DESIGN 10-d fixed; regression input known-10d-multi-arity in robust class value.cmp); model owned by C19"),
+    ("src/policy/mod.rs", r"^lift$", r"unwrap|expect", r"", "arg:since /repo 780a529d lift builds the threshold from the number of children and handles the empty cases (DESIGN 10-e fixed; regression inputs A[k0], A[], O[] in robust class value.policy); model owned by C18"),
+    ("src/policy/compiler.rs", r"^cmp$", r"unwrap", r"", "observed:panic:src/policy/compiler.rs:cmp (NaN cost from Or with both odds 0; known finding, value-level only)"),
+    ("src/policy/compiler.rs", r"^best_compilations$", r"index", r"subs.0..0 . subs.1..0", "observed:panic:src/policy/compiler.rs:best_compilations (usize overflow adding the odds of an Or; known finding, value-level only)"),
+    ("src/descriptor/key.rs", r"^derive_public_key$", r"unreachable", r"", "arg:since /repo fc4edba4 the parser rejects extended keys whose derivation would exceed depth 255 (regression inputs path-256-steps, path-1e5 in str.key.* / str.desc.*); hardened steps excluded by DefiniteDescriptorKey::new"),
+    ("src/psbt/finalizer.rs", r"^get_utxo$", r"index", r"", "arg:inputs.len() == unsigned_tx.input.len() is a structural invariant of a deserialised Psbt; the non_witness_utxo.output[vout] index was replaced by get() in /repo 82797344 (regression: psbt mutator non_witness_utxo-vout-out-of-range)"),
+    ("src/miniscript/satisfy/mod.rs", r"^satisfy(_mall)?$", r"expect|unwrap", r"", "arg:since /repo c829870f an incompletable template yields an unavailable satisfaction (regression: psbt class, tap leaf with a raw pkh)"),
     ("src/miniscript/satisfy/mod.rs", r"^satisfy_self$", r"debug_assert", r"", "debug-only; contract between AssetProvider sizes and Satisfier signatures"),
     ("src/miniscript/satisfy/sat_dissat.rs", r"^sat_dissat$", r"assert$", r"has_sig", "arg:or_b/or_c/or_d require a `d` (unique dissatisfaction) left child, typing gives dissat.has_sig = false; exercised by robust class `sat` (typed-but-insane scripts x asset subsets); satisfier model owned by C01/C02"),
-    ("src/descriptor/sh.rs", r"", r"assert", r"", "observed:panic:src/descriptor/sh.rs:address_fallible (521-byte redeem script accepted, reported by C07)"),
-    ("src/util.rs", r"", r"expect", r"", "observed:panic:src/util.rs:witness_to_scriptsig (521-byte redeem script accepted, reported by C07)"),
+    ("src/descriptor/sh.rs", r"", r"assert", r"", "arg:redeem scripts above 520 bytes are rejected at construction since /repo 5d25865d / 4c5160f8 (size accounting of uncompressed keys; regression input sh-redeem-521-bytes, reported by C07)"),
+    ("src/util.rs", r"", r"expect", r"", "arg:redeem scripts above 520 bytes are rejected at construction since /repo 5d25865d / 4c5160f8 (regression input sh-redeem-521-bytes, reported by C07)"),
 ]
 
 
